@@ -291,7 +291,12 @@ func (txi *TxIndex) Search(ctx context.Context, q *query.Query) ([]*abci.TxResul
 func lookForHash(conditions []query.Condition) (hash []byte, ok bool, err error) {
 	for _, c := range conditions {
 		if c.CompositeKey == types.TxHashKey {
-			decoded, err := hex.DecodeString(c.Operand.(string))
+			// only a string operand can name a hash ("tx.hash=5", "tx.hash EXISTS" must not panic)
+			hashStr, isString := c.Operand.(string)
+			if !isString {
+				continue
+			}
+			decoded, err := hex.DecodeString(hashStr)
 			return decoded, true, err
 		}
 	}
@@ -302,7 +307,10 @@ func lookForHash(conditions []query.Condition) (hash []byte, ok bool, err error)
 func lookForHeight(conditions []query.Condition) (height int64) {
 	for _, c := range conditions {
 		if c.CompositeKey == types.TxHeightKey && c.Op == query.OpEqual {
-			return c.Operand.(int64)
+			// "tx.height='5'" has a string operand: not a height lookup (and must not panic)
+			if h, isInt := c.Operand.(int64); isInt {
+				return h
+			}
 		}
 	}
 	return 0
